@@ -272,6 +272,10 @@ def run_case(case):
                         if not ok:
                             viol.append(V('unpersistable-not-refused', 'unpersistable-not-refused:%s:%s' % (kind, case['persister']), '%s: answered %s' % (ctx, rep)))
                         drv.pump()
+                        if new and case['persister'] == 'none':
+                            # no persister at all: the task is refused as it stands, not after a process has been constructed for it
+                            viol.append(V('refused-but-constructed', 'refused-but-constructed:%s' % kind, '%s: the task was rejected (%s) but %d process(es) '
+                                          'had been constructed for it' % (ctx, rep, len(new))))
                         for p in new:
                             idle.add(p)
                             if any(t[0] == 'enter' for t in p.trace) or p.state.value != 'created':
